@@ -8,6 +8,7 @@ import Mercure.Model.Hub
 import Mercure.Model.Retention
 import Mercure.Model.BoltStore
 import Mercure.Model.Template
+import Mercure.Model.Form
 import Mercure.Model.Sys
 import Mercure.Model.Timed
 import Mercure.Model.Config
@@ -123,6 +124,9 @@ def showUpdFull (u : Update) : String :=
 def showRespBytes : Option (List UInt8) → String
   | none => "~"
   | some bs => "=" ++ hexRaw bs
+
+
+def unhexRaw (s : String) : Option (List UInt8) := (unhexBytes s.toList ByteArray.empty).map (·.toList)
 
 namespace SysShow
 open Mercure.Sys
@@ -368,6 +372,20 @@ def step (st : DSt) (line : String) : DSt × String :=
        | some items => (st, showBool (Template.matchTemplate items topic))
        | none => (st, "invalid"))
     | _, _ => (st, "bad-op")
+  | ["form.parse", body] =>
+    -- url.ParseQuery on raw bytes: the error flag and, per key in byte order of the keys, the values in order
+    match unhexRaw body with
+    | some b =>
+      let (kvs, err) := Form.parseQuery b
+      (st, s!"{showBool err}|{",".intercalate (kvs.map (fun kv => hexRaw kv.1 ++ "=" ++ hexRaw kv.2))}")
+    | none => (st, "bad-op")
+  | ["form.fields", body] =>
+    match unhexRaw body with
+    | some b =>
+      match Form.fieldsOf b with
+      | some f => (st, s!"{showBool f.formOk} {hexList f.topics} {hex f.retry} {showBool f.priv} {hex f.data} {hex f.id} {hex f.type}")
+      | none => (st, "non-utf8")
+    | none => (st, "bad-op")
   | ["sse.enc", data, id, type, retry] =>
     match unhex data, unhex id, unhex type, retry.toNat? with
     | some d, some i, some t, some r => (st, hex ({ data := d, id := i, type := t, retry := r } : Event).encode)
